@@ -1,6 +1,7 @@
 package core
 
 import (
+	"sync"
 	"go/constant"
 	"go/token"
 	"go/types"
@@ -83,8 +84,74 @@ func nonNilShape(t *Term) bool {
 				return true
 			}
 		}
+		if f, ok := t.Ref.(*ssa.Function); ok && f.Blocks != nil && f.Signature.Results().Len() == 1 {
+			return alwaysNonNilResult(f, 0, 0)
+		}
+	case KExtract:
+		if c := t.Args[0]; c.Kind == KCall {
+			if f, ok := c.Ref.(*ssa.Function); ok && f.Blocks != nil && t.N < f.Signature.Results().Len() {
+				return alwaysNonNilResult(f, t.N, 0)
+			}
+		}
 	}
 	return false
+}
+
+// alwaysNonNilResult: every return of the in-package function f yields, as
+// result k, a value that cannot be nil by construction (a boxed value, a fresh
+// allocation, a function, or the same result of another such function).  A
+// purely syntactic summary: spilled results (functions with defer) are not
+// followed and count as "may be nil".
+var nonNilSummaries sync.Map
+
+type nonNilKey struct {
+	f *ssa.Function
+	k int
+}
+
+func alwaysNonNilResult(f *ssa.Function, k, depth int) bool {
+	if v, ok := nonNilSummaries.Load(nonNilKey{f, k}); ok {
+		return v.(bool)
+	}
+	if depth > 4 {
+		return false
+	}
+	res, n := true, 0
+	var shape func(v ssa.Value) bool
+	shape = func(v ssa.Value) bool {
+		switch v := v.(type) {
+		case *ssa.MakeInterface, *ssa.Alloc, *ssa.MakeSlice, *ssa.MakeMap, *ssa.MakeChan, *ssa.MakeClosure, *ssa.Function:
+			return true
+		case *ssa.ChangeInterface:
+			return shape(v.X)
+		case *ssa.Call:
+			if g := v.Call.StaticCallee(); g != nil && g.Blocks != nil && g.Signature.Results().Len() == 1 {
+				return alwaysNonNilResult(g, 0, depth+1)
+			}
+		case *ssa.Extract:
+			if c, ok := v.Tuple.(*ssa.Call); ok {
+				if g := c.Call.StaticCallee(); g != nil && g.Blocks != nil {
+					return alwaysNonNilResult(g, v.Index, depth+1)
+				}
+			}
+		}
+		return false
+	}
+	for _, b := range f.Blocks {
+		for _, in := range b.Instrs {
+			if r, ok := in.(*ssa.Return); ok {
+				n++
+				if k >= len(r.Results) || !shape(r.Results[k]) {
+					res = false
+				}
+			}
+		}
+	}
+	res = res && n > 0
+	if depth == 0 {
+		nonNilSummaries.Store(nonNilKey{f, k}, res)
+	}
+	return res
 }
 
 func (x *Explorer) Eq(a, b *Term) *Term {
